@@ -61,6 +61,7 @@ type compiled struct {
 	ic   bool
 	d    *dissect.Dissect
 	inst *dissect.DissectInstance
+	kept []keptResult
 }
 
 // reuse (bounded-exhaustive sweep only): keep the compiled expression and its
@@ -87,6 +88,12 @@ func prepare(expr string, ignoreCase bool, o *pbt.Obs) (*compiled, error) {
 	p := Parse(expr)
 	if p.Ambiguous != "" {
 		pbt.Exclude("ambiguous-expression")
+		return nil, nil
+	}
+	if ignoreCase && namesCollideWhenLowered(p) {
+		// "equals the case-sensitive result on lower-cased pattern" can be read
+		// as lower-casing the names too, which would make this a key conflict
+		pbt.Exclude("ignore-case:token-names-collide-when-lowered")
 		return nil, nil
 	}
 	d, err := dissect.CompileEx(expr, ignoreCase)
@@ -130,7 +137,27 @@ func (cp *compiled) find(line string) []int {
 	if len(got) == 0 {
 		return nil
 	}
+	if !reuse.on {
+		cp.kept = append(cp.kept, keptResult{line, got, append([]int(nil), got...)})
+	}
 	return got
+}
+
+type keptResult struct {
+	line       string
+	live, copy []int
+}
+
+// unaltered: "results returned for earlier lines are not altered by matching
+// later lines" - every slice handed out is read again after the last call.
+func (cp *compiled) unaltered() error {
+	for i, r := range cp.kept {
+		if !eqInts(r.live, r.copy) {
+			return fmt.Errorf("%s: result %d of %d from one instance was %v when returned and reads %v after the later calls",
+				cp.describe(r.line), i+1, len(cp.kept), r.copy, r.live)
+		}
+	}
+	return nil
 }
 
 func (cp *compiled) describe(line string) string {
@@ -185,6 +212,21 @@ func namesCaseStable(p Pattern) bool {
 		}
 	}
 	return true
+}
+
+func namesCollideWhenLowered(p Pattern) bool {
+	seenA, seenU := map[string]bool{}, map[string]bool{}
+	for _, t := range p.Tokens {
+		if t.Skip {
+			continue
+		}
+		a, u := LowerASCII(t.Name), strings.ToLower(t.Name)
+		if (seenA[a] || seenU[u]) && len(p.Errs) == 0 {
+			return true
+		}
+		seenA[a], seenU[u] = true, true
+	}
+	return false
 }
 
 func groupsText(line string, idx []int) string {
@@ -255,8 +297,8 @@ func checkSpec(expr string, lines []pbt.S, o *pbt.Obs) error {
 			return err
 		}
 	}
-	o.Add("pairs", len(lines))
-	return nil
+	pairs["spec"] += len(lines)
+	return cp.unaltered()
 }
 
 func checkIcase(expr string, lines []pbt.S, o *pbt.Obs) error {
@@ -269,20 +311,21 @@ func checkIcase(expr string, lines []pbt.S, o *pbt.Obs) error {
 			return err
 		}
 	}
-	o.Add("pairs", len(lines))
-	return nil
+	pairs["icase"] += len(lines)
+	return cp.unaltered()
+}
+
+// pairs counts the (expression, line) pairs judged, reported as a note.
+var pairs = map[string]int{}
+
+func notePairs(sub, key string) {
+	pbt.Note("C12", sub+".expression-line-pairs", pairs[key])
+	pairs[key] = 0
 }
 
 // observe records labels for the classifier.
-func observe(o *pbt.Obs, p Pattern, line string, want []int, icase bool) {
+func observe(o *pbt.Obs, p Pattern, line string, want []int) {
 	if o == nil {
-		return
-	}
-	if len(p.Errs) > 0 {
-		for _, e := range p.Errs {
-			o.Label(true, "error:"+e)
-		}
-		o.Label(len(p.Errs) > 1, "error:several-kinds")
 		return
 	}
 	nt := len(p.Tokens)
@@ -290,7 +333,7 @@ func observe(o *pbt.Obs, p Pattern, line string, want []int, icase bool) {
 		nt = 5
 	}
 	o.Label(true, fmt.Sprintf("tokens=%d", nt))
-	o.Add("tokens", len(p.Tokens))
+	o.Label(len(p.Tokens) >= 2, ">=2-tokens")
 	o.Label(p.Prefix == "", "empty-prefix")
 	o.Label(len(p.Tokens) > 0 && p.Tokens[len(p.Tokens)-1].Delim == "", "last-token-to-end-of-line")
 	nonASCII, percent := false, false
@@ -352,12 +395,23 @@ var (
 	namePool    = []string{"a", "b", "c", "val", "x1", "key", "N", "Key", "é", "a b", "?", "0", "a%", "b-c"}
 )
 
+// widePieces: every printable ASCII character (so that the edges of the
+// letter ranges @ A Z [ ` a z { take part), letters doubled.
+var widePieces = func() []string {
+	var out []string
+	for c := byte(' '); c < 0x7f; c++ {
+		out = append(out, string(rune(c)))
+	}
+	out = append(out, "A", "Z", "a", "z", "@", "[", "`", "{", "Az", "zA", "%", "%")
+	return out
+}()
+
 type profile struct {
 	name   string
 	pieces []string
 }
 
-var profiles = []profile{{"ascii", asciiPieces}, {"ascii", asciiPieces}, {"utf8", utf8Pieces}, {"bytes", bytePieces}}
+var profiles = []profile{{"ascii", asciiPieces}, {"ascii", asciiPieces}, {"ascii-wide", widePieces}, {"utf8", utf8Pieces}, {"bytes", bytePieces}}
 
 func drawProfile(t *rapid.T) profile {
 	return profiles[rapid.IntRange(0, len(profiles)-1).Draw(t, "profile")]
@@ -524,8 +578,11 @@ func mutateLiteral(t *rapid.T, s string) string {
 // genLine draws a line for the pattern: built from it (so that it matches,
 // with fills that collide with the delimiters), damaged, truncated,
 // case-flipped, or unrelated.
-func genLine(t *rapid.T, pr profile, g genPat, flipWeight int) string {
+func genLine(t *rapid.T, pr profile, g genPat, flipWeight int, clean bool) string {
 	mode := rapid.IntRange(0, 19).Draw(t, "linemode")
+	if clean { // built from the expression, literals intact: always matches
+		mode = 4
+	}
 	if mode < 3 { // unrelated
 		n := rapid.IntRange(0, 8).Draw(t, "nrand")
 		s := ""
@@ -562,7 +619,7 @@ func genLine(t *rapid.T, pr profile, g genPat, flipWeight int) string {
 		return s
 	}
 	lit := func(s string) string {
-		if rapid.IntRange(0, 15).Draw(t, "damage") == 0 {
+		if !clean && rapid.IntRange(0, 15).Draw(t, "damage") == 0 {
 			return mutateLiteral(t, s)
 		}
 		return s
@@ -588,10 +645,10 @@ func genLine(t *rapid.T, pr profile, g genPat, flipWeight int) string {
 	return s
 }
 
-// Case is one (expression, line) pair.
+// Case is one expression and the lines matched against it (one instance).
 type Case struct {
 	Pattern pbt.S
-	Line    pbt.S
+	Lines   []pbt.S
 	Obs     *pbt.Obs `json:"-"`
 }
 
@@ -599,7 +656,10 @@ func genCase(flipWeight int, lowerNames bool) func(t *rapid.T) Case {
 	return func(t *rapid.T) Case {
 		pr := drawProfile(t)
 		g := genPattern(t, pr, lowerNames)
-		line := genLine(t, pr, g, flipWeight)
+		var lines []pbt.S
+		for i, n := 0, rapid.IntRange(2, 16).Draw(t, "nlines"); i < n; i++ {
+			lines = append(lines, pbt.S(genLine(t, pr, g, flipWeight, false)))
+		}
 		expr := g.text()
 		if rapid.IntRange(0, 11).Draw(t, "broken") == 0 {
 			expr = breakPattern(t, g)
@@ -615,60 +675,126 @@ func genCase(flipWeight int, lowerNames bool) func(t *rapid.T) Case {
 				expr = up.text()
 			}
 		}
-		return Case{Pattern: pbt.S(expr), Line: pbt.S(line), Obs: pbt.NewObs()}
+		return Case{Pattern: pbt.S(expr), Lines: lines, Obs: pbt.NewObs()}
 	}
 }
 
 func classify(c Case) (bool, []string) {
 	o := c.Obs
 	judged := o.Has("cs-match") || o.Has("cs-no-match:delimiter-absent")
-	nt := judged && o.Get("tokens") >= 2 &&
+	nt := judged && o.Has(">=2-tokens") &&
 		(o.Has("partial-delimiter-in-text") || o.Has("delimiter-occurs-again-later") || o.Has("prefix-repeats") ||
 			o.Has("delim-overlaps-prefix") || o.Has("non-ascii-literal"))
 	return nt, o.All()
+}
+
+// Batch is what the driver sees as one case of the rapid sub-properties: a
+// few independent (expression, lines) items. The driver pays a goroutine
+// hand-over and a journal write per case, which on a loaded machine costs far
+// more than an item; batching keeps the search large at a small case count.
+// rapid shrinks a failing batch down to the failing item.
+type Batch struct {
+	Items []Case
+	Obs   *pbt.Obs `json:"-"`
+}
+
+func genBatch(flipWeight int, lowerNames bool) func(t *rapid.T) Batch {
+	item := rapid.Custom(genCase(flipWeight, lowerNames))
+	return func(t *rapid.T) Batch {
+		return Batch{Items: rapid.SliceOfN(item, 1, 8).Draw(t, "items"), Obs: pbt.NewObs()}
+	}
+}
+
+// itemLabels counts labels per item (the driver's histogram counts batches);
+// reported as notes "items.<sub>.<label>".
+var itemLabels = map[string]int{}
+
+func checkBatch(sub string, f func(expr string, lines []pbt.S, o *pbt.Obs) error) func(Batch) error {
+	return func(b Batch) error {
+		for i := range b.Items {
+			it := &b.Items[i]
+			if it.Obs == nil {
+				it.Obs = pbt.NewObs() // replayed case
+			}
+			if err := f(string(it.Pattern), it.Lines, it.Obs); err != nil {
+				return fmt.Errorf("item %d of %d: %w", i+1, len(b.Items), err)
+			}
+			nt, labels := classify(*it)
+			for _, l := range labels {
+				itemLabels[sub+"."+l]++
+				b.Obs.Label(true, l)
+			}
+			itemLabels[sub+".ITEMS"]++
+			if nt {
+				itemLabels[sub+".NONTRIVIAL-ITEMS"]++
+				b.Obs.Add("nontrivial-items", 1)
+			}
+		}
+		return nil
+	}
+}
+
+func classifyBatch(b Batch) (bool, []string) {
+	return b.Obs.Get("nontrivial-items") > 0, b.Obs.All()
+}
+
+func noteItems(sub string) {
+	for _, k := range pbt.SortedKeys(itemLabels) {
+		if strings.HasPrefix(k, sub+".") {
+			pbt.Note("C12", "items."+k, itemLabels[k])
+			delete(itemLabels, k)
+		}
+	}
 }
 
 // ---------------------------------------------------------------------------
 // sub-properties
 // ---------------------------------------------------------------------------
 
-var specSpec = pbt.Spec[Case]{
+var specSpec = pbt.Spec[Batch]{
 	Property: "C12", Name: "spec",
-	Rule: "expressions assembled from pieces (leading literal possibly empty, 0-5 tokens %{name}|%{}|%{?name}, delimiters over a colliding alphabet a/b/ab/ba/A/B/blank/:/%/- plus é É ж Ж 日 and, in the bytes profile, lone UTF-8 bytes, NUL, 0xFF, { }, Kelvin sign, İ; 1 in 12 broken into exactly one of unclosed / adjacent / duplicate-name) x lines built from the expression with colliding fills (partial delimiters, repeats of the leading literal), damaged, truncated, case-flipped or unrelated; oracle = reference dissect written from the statement: accept/reject and error class, SubexpNameTable, every offset, ordering and bounds. Non-trivial: >=2 tokens, leading literal present in the line, and (partial delimiter inside a token text | delimiter occurring again later | leading literal repeated | delimiter overlapping the leading literal | non-ASCII literal); distinct by case JSON",
-	Budget: pbt.Budget{Quick: 480000, Thorough: 12000000},
-	Gen:    genCase(3, false),
-	Check:  func(c Case) error { return checkSpec(string(c.Pattern), string(c.Line), c.Obs) },
-	Classify: classify,
+	Rule:     "a case is a batch of 1-8 items; item = expression assembled from pieces (leading literal possibly empty, 0-5 tokens %{name}|%{}|%{?name}, delimiters over a colliding alphabet a/b/ab/ba/A/B/blank/:/%/-, or all printable ASCII, plus é É ж Ж 日 and, in the bytes profile, lone UTF-8 bytes, NUL, 0xFF, { }, Kelvin sign, İ; 1 in 12 broken into exactly one of unclosed / adjacent / duplicate-name) x 2-16 lines per expression (one instance), built from the expression with colliding fills (partial delimiters, repeats of the leading literal), damaged, truncated, case-flipped or unrelated; oracle = reference dissect written from the statement: accept/reject and error class, SubexpNameTable, every offset, ordering and bounds. Non-trivial: >=2 tokens, leading literal present in the line, and (partial delimiter inside a token text | delimiter occurring again later | leading literal repeated | delimiter overlapping the leading literal | non-ASCII literal) holds for some item of the batch; per-item label counts are in the notes items.spec.*; distinct by case JSON",
+	Budget:   pbt.Budget{Quick: 16000, Thorough: 240000},
+	Gen:      genBatch(3, false),
+	Check:    checkBatch("spec", checkSpec),
+	Classify: classifyBatch,
 }
 
-func TestSpec(t *testing.T) { pbt.Run(t, specSpec) }
+func TestSpec(t *testing.T) {
+	defer notePairs("spec", "spec")
+	defer noteItems("spec")
+	pbt.Run(t, specSpec)
+}
 
-var icaseSpec = pbt.Spec[Case]{
+var icaseSpec = pbt.Spec[Batch]{
 	Property: "C12", Name: "icase",
-	Rule: "same generator with more case-flipped lines and upper-case letters in the literals of the expression (token names kept lower-case); oracle = (i) a line the reference matches case-sensitively is matched with ignore-case, (ii) for all-ASCII expression and line the ignore-case result equals the reference result on ASCII-lower-cased literals and line, offsets ordered and within the line, accept/reject independent of the mode. Non-trivial as for spec; distinct by case JSON",
-	Budget: pbt.Budget{Quick: 480000, Thorough: 12000000},
-	Gen:    genCase(8, true),
-	Check:  func(c Case) error { return checkIcase(string(c.Pattern), string(c.Line), c.Obs) },
-	Classify: classify,
+	Rule:     "same generator with more case-flipped lines and upper-case letters in the literals of the expression (token names kept lower-case); oracle = (i) a line the reference matches case-sensitively is matched with ignore-case, (ii) for all-ASCII expression and line the ignore-case result equals the reference result on ASCII-lower-cased literals and line, offsets ordered and within the line, accept/reject independent of the mode. Batched and non-trivial as for spec (notes items.icase.*); distinct by case JSON",
+	Budget:   pbt.Budget{Quick: 16000, Thorough: 240000},
+	Gen:      genBatch(8, true),
+	Check:    checkBatch("icase", checkIcase),
+	Classify: classifyBatch,
 }
 
-func TestIgnoreCase(t *testing.T) { pbt.Run(t, icaseSpec) }
+func TestIgnoreCase(t *testing.T) {
+	defer notePairs("icase", "icase")
+	defer noteItems("icase")
+	pbt.Run(t, icaseSpec)
+}
 
 // TestExhaustive: every small expression over a tiny colliding alphabet x
 // every short line, both modes.
 func TestExhaustive(t *testing.T) {
-	L := 5
+	L := 6
 	if pbt.Thorough() {
 		L = 7
 	}
-	sp := specSpec
-	sp.Name = "exhaustive"
+	sp := pbt.Spec[Case]{Property: "C12", Name: "exhaustive"}
 	sp.Rule = fmt.Sprintf("bounded-exhaustive: leading literal in {\"\",a,ab,%%,B} x 1-2 tokens (captured | skipped) x delimiters in {a,b,ab,ba,%%,a%%,A} (last one also empty) x every line of length<=%d over {a,b,%%,A}; both oracles (spec and ignore-case relations); non-trivial: 2 tokens and the leading literal occurs in the line", L)
 	sp.Check = func(c Case) error {
-		if err := checkSpec(string(c.Pattern), string(c.Line), c.Obs); err != nil {
+		if err := checkSpec(string(c.Pattern), c.Lines, c.Obs); err != nil {
 			return err
 		}
-		return checkIcase(string(c.Pattern), string(c.Line), nil)
+		return checkIcase(string(c.Pattern), c.Lines, nil)
 	}
 	sp.Classify = func(c Case) (bool, []string) {
 		o := c.Obs
@@ -678,7 +804,7 @@ func TestExhaustive(t *testing.T) {
 				l = append(l, k)
 			}
 		}
-		return o.Get("tokens") >= 2 && (o.Has("cs-match") || o.Has("cs-no-match:delimiter-absent")), l
+		return o.Has(">=2-tokens") && (o.Has("cs-match") || o.Has("cs-no-match:delimiter-absent")), l
 	}
 	prefixes := []string{"", "a", "ab", "%", "B"}
 	delims := []string{"a", "b", "ab", "ba", "%", "a%", "A"}
@@ -728,10 +854,17 @@ func TestExhaustive(t *testing.T) {
 	}
 	reuse.on = os.Getenv("VERIF_REPLAY") == ""
 	defer func() { reuse.on = false }()
+	k, n := pbt.Shard()
+	idx := 0
 	pbt.Enum(t, sp, func(yield func(Case) bool) {
 		for _, e := range exprs {
-			for _, l := range lines {
-				if !yield(Case{Pattern: pbt.S(e), Line: l, Obs: pbt.NewObs()}) {
+			for i := range lines {
+				c := Case{Pattern: pbt.S(e), Lines: lines[i : i+1 : i+1]}
+				if idx%n == k || os.Getenv("VERIF_REPLAY") != "" {
+					c.Obs = pbt.NewObs() // only the cases this shard evaluates
+				}
+				idx++
+				if !yield(c) {
 					return
 				}
 			}
@@ -771,10 +904,11 @@ func checkSeq(c SeqCase) error {
 		return nil
 	}
 	ascii := IsASCII(expr)
-	d, err := compile(expr, p, c.IgnoreCase)
-	if err != nil {
+	cp, err := prepare(expr, c.IgnoreCase, c.Obs)
+	if cp == nil {
 		return err
 	}
+	d := cp.d
 	fac := matchers.ToFactory[*dissect.DissectInstance](d)
 	inst := make([]matchers.Matcher, c.Instances)
 	for i := range inst {
@@ -867,7 +1001,8 @@ func genSeq(t *rapid.T) SeqCase {
 	c := SeqCase{Pattern: pbt.S(g.text()), IgnoreCase: ic, Obs: pbt.NewObs()}
 	nl := rapid.IntRange(1, 7).Draw(t, "nlines")
 	for i := 0; i < nl; i++ {
-		c.Lines = append(c.Lines, pbt.S(genLine(t, pr, g, 2)))
+		clean := rapid.IntRange(0, 9).Draw(t, "clean") < 7
+		c.Lines = append(c.Lines, pbt.S(genLine(t, pr, g, 2, clean)))
 	}
 	c.Instances = rapid.SampledFrom([]int{1, 1, 1, 2, 3}).Draw(t, "instances")
 	if rapid.IntRange(0, 3).Draw(t, "short") == 0 {
@@ -881,8 +1016,8 @@ func genSeq(t *rapid.T) SeqCase {
 
 var seqSpec = pbt.Spec[SeqCase]{
 	Property: "C12", Name: "pool",
-	Rule: "one compiled expression (either mode), 1-3 instances created through matchers.ToFactory, 1-7 distinct lines (generated as for spec) fed N times in a hashed order, N up to 5100 so that one instance hands out more than 1024 results (the size of its index pool); every call compared with the reference, every returned slice kept and re-read after the last call, line buffers unchanged. Non-trivial: some instance returned >1024 results and >=1 match; distinct by case JSON",
-	Budget: pbt.Budget{Quick: 16000, Thorough: 300000},
+	Rule:   "one compiled expression (either mode), 1-3 instances created through matchers.ToFactory, 1-7 distinct lines (generated as for spec) fed N times in a hashed order, N up to 5100 so that one instance hands out more than 1024 results (the size of its index pool); every call compared with the reference, every returned slice kept and re-read after the last call, line buffers unchanged. Non-trivial: some instance returned >1024 results and >=1 match; distinct by case JSON",
+	Budget: pbt.Budget{Quick: 8000, Thorough: 120000},
 	Gen:    genSeq, Check: checkSeq,
 	Classify: func(c SeqCase) (bool, []string) {
 		return c.Obs.Get("maxresults") > 1024 && c.Obs.Get("matches") > 0, c.Obs.All()
@@ -911,6 +1046,9 @@ func FuzzDissect(f *testing.F) {
 		{"unclosed %{", "x"},
 		{"a %{a} %{a}", "a 1 2"},
 		{"a %{a}%{b}", "a 12"},
+		{"%{a}0%{a}0%{", "x0y0z"}, // two kinds of error at once (found by this target in the model)
+		{"%{a}%", "x%"},
+		{"%{x} 100%", "load 100% now"},
 		{"%{a} 50% of %{b}", "x 50% of y"},
 		{"a É %{x}", "a É val"},
 		{"HTTP/1.1\" %{code} %{size}", `"GET / HTTP/1.1" 200 546`},
@@ -927,9 +1065,15 @@ func FuzzDissect(f *testing.F) {
 			if err != nil {
 				continue
 			}
-			var c Case
-			if json.Unmarshal(raw, &c) == nil {
-				f.Add(string(c.Pattern), []byte(c.Line), true)
+			var rf struct {
+				Case Batch `json:"case"`
+			}
+			if json.Unmarshal(raw, &rf) == nil {
+				for _, it := range rf.Case.Items {
+					for _, l := range it.Lines {
+						f.Add(string(it.Pattern), []byte(l), true)
+					}
+				}
 			}
 		}
 	}
@@ -938,10 +1082,11 @@ func FuzzDissect(f *testing.F) {
 			return
 		}
 		err := pbt.Guard(func() error {
-			if err := checkSpec(expr, string(line), nil); err != nil || !ignoreCase {
+			l := []pbt.S{pbt.S(line)}
+			if err := checkSpec(expr, l, nil); err != nil || !ignoreCase {
 				return err
 			}
-			return checkIcase(expr, string(line), nil)
+			return checkIcase(expr, l, nil)
 		})
 		if err != nil {
 			t.Fatalf("%v", err)
